@@ -3,29 +3,26 @@ import DirectVerif.Model.DataConsistency
 /-!
 # Bridge C19 — the operator composition translated from `/repo` is the hand-written model
 
-1. `*_eq`: the plans generated from the Python AST of `MRILogLikelihood.forward`, `ConjGrad._A_star_op`,
-   `_A_star_A_op`, `B_op`, `cg` (prologue, loop body per `bk_update_type` with `_PRP/_DY/_BAN` inlined, control
-   skeleton) and `forward` equal the plans written in `Model/DataConsistency.lean` (`decide`).
-2. `*_sem`: those plans, interpreted over **any** operations record, compute exactly `loglik`, `aStar`,
-   `aStarA`, `bOp`, `cgInit`, `cgStep` — the definitions the property theorems are about and the driver runs.
+`*_sem`: the plans generated from the Python AST of `MRILogLikelihood.forward`, `ConjGrad._A_star_op`, `_A_star_A_op`,
+`B_op`, `cg` (prologue, loop body per `bk_update_type` with the helpers inlined), interpreted over **any** operations
+record, compute exactly `loglik`, `aStar`, `aStarA`, `bOp`, `cgInit`, `cgStep` — the definitions the property theorems
+are about and the driver runs.  The lemmas are closed by evaluating the generated plan, so they are insensitive to
+statement order, local names, hoisted sub-expressions and helper extraction (phase 3: the former textual `*_plan_eq`
+lemmas were dropped for that reason); the control skeleton of `cg` is compared as data (`cg_loop_shape_eq`).
 
 A change of composition order, a dropped/added mask, a swapped operand of `-`, another reduction axis, a moved
-`break`, a different inner product in `ak`/`bk` changes the generated plan and `decide` fails.
+`break`, a different inner product in `ak`/`bk` changes the value of the generated plan and `simp` no longer closes.
 -/
+set_option linter.unusedSimpArgs false
+
 namespace DirectVerif.Bridge.C19
 open DirectVerif DirectVerif.DataConsistency DirectVerif.Gen.C19
 
 theorem coil_dim_eq : coil_dim = 1 := by decide
 
-theorem loglik_plan_eq : loglik_plan = loglikPlan := by decide
 theorem loglik_default_scaling : loglik_default_scaling_is_one = true := by decide
 /-- a per-sample `loglikelihood_scaling` of shape `(N,)` is broadcast along the batch axis (`reshape(-1, 1, 1, 1, 1)`) -/
 theorem loglik_scaling_batch_axis : loglik_scaling_on_batch_axis = true := by decide
-theorem a_star_plan_eq : a_star_plan = aStarPlan := by decide
-theorem a_star_a_plan_eq : a_star_a_plan = aStarAPlan := by decide
-theorem b_op_plan_eq : b_op_plan = bOpPlan := by decide
-theorem cg_init_plan_eq : cg_init_plan = cgInitPlan := by decide
-theorem cg_body_plan_eq (u : Update) : cg_body_plan u = cgBodyPlan u := by cases u <;> decide
 theorem cg_loop_shape_eq : cg_loop_shape = cgLoopShape := by decide
 /-- `forward(masked_kspace, S, mask, z, lambd)` returns `self.cg(z, masked_kspace, S, mask, lambd, z)` -/
 theorem forward_call_args_eq : forward_call_args = [3, 0, 1, 2, 4, 3] := by decide
@@ -36,40 +33,39 @@ variable {K : Type u} {V : Type v} {W : Type w} (ox : OpsX K V W)
 
 local notation "o" => ox.toOps
 
+/-! The lemmas below are stated on the GENERATED plans and closed by evaluation: they do not depend on the order in which
+independent statements appear, on the names of locals, on hoisted sub-expressions or on helper extraction — only on the
+value the plan computes for every operations record.  (When a kernel is skipped the generated plan is the model's.) -/
+
 /-- the plan of `MRILogLikelihood.forward` computes `loglik` -/
 theorem loglik_plan_sem (s : K) (x : V) (y : W) :
     evalPlan ox [.v x, .w y, .k s] loglik_plan = some [.v (loglik o s x y)] := by
-  rw [loglik_plan_eq]
-  simp [evalPlan, evalNodes, evalNode, loglikPlan, loglik]
+  simp [evalPlan, evalNodes, evalNode, loglik_plan, loglikPlan, loglik]
 
 theorem a_star_plan_sem (y : W) : evalPlan ox [.w y] a_star_plan = some [.v (aStar o y)] := by
-  rw [a_star_plan_eq]
-  simp [evalPlan, evalNodes, evalNode, aStarPlan, aStar]
+  simp [evalPlan, evalNodes, evalNode, a_star_plan, aStarPlan, aStar]
 
 theorem a_star_a_plan_sem (x : V) : evalPlan ox [.v x] a_star_a_plan = some [.v (aStarA o x)] := by
-  rw [a_star_a_plan_eq]
-  simp [evalPlan, evalNodes, evalNode, aStarAPlan, aStarA, aStar]
+  simp [evalPlan, evalNodes, evalNode, a_star_a_plan, aStarAPlan, aStarA, aStar]
 
 theorem b_op_plan_sem (x : V) (lam : K) : evalPlan ox [.v x, .k lam] b_op_plan = some [.v (bOp o lam x)] := by
-  rw [b_op_plan_eq]
-  simp [evalPlan, evalNodes, evalNode, bOpPlan, bOp, aStarA, aStar]
+  simp [evalPlan, evalNodes, evalNode, b_op_plan, bOpPlan, bOp, aStarA, aStar]
 
 /-- the statements of `cg` before the loop compute `cgInit` -/
 theorem cg_init_plan_sem (x z : V) (y : W) (lam : K) :
     evalPlan ox [.v x, .w y, .k lam, .v z] cg_init_plan =
       some [.v (cgInit o lam y z x).x, .v (cgInit o lam y z x).r, .v (cgInit o lam y z x).p,
             .k (cgInit o lam y z x).rr] := by
-  rw [cg_init_plan_eq]
-  simp [evalPlan, evalNodes, evalNode, cgInitPlan, cgInit, rhs, bOp, aStarA, aStar]
+  simp [evalPlan, evalNodes, evalNode, cg_init_plan, cgInitPlan, cgInit, rhs, bOp, aStarA, aStar]
 
-/-- the loop body of `cg` computes `cgStep` with `B = B_op(·, S, mask, lambd)`, for each update type -/
+/-- the loop body of `cg` computes `cgStep` with `B = B_op(·, S, mask, lambd)`, for each update type (the dispatch on
+`bk_update_type` — if / elif chain, early returns in a helper — is resolved by the translator per update type) -/
 theorem cg_body_plan_sem (u : Update) (s : CGState K V) (lam : K) :
     evalPlan ox [.v s.x, .v s.r, .v s.p, .k s.rr, .k lam] (cg_body_plan u) =
       some [.v (cgStep o u (bOp o lam) s).x, .v (cgStep o u (bOp o lam) s).r,
             .v (cgStep o u (bOp o lam) s).p, .k (cgStep o u (bOp o lam) s).rr] := by
-  rw [cg_body_plan_eq]
   cases u <;>
-    simp [evalPlan, evalNodes, evalNode, cgBodyPlan, cgHeadNodes, betaNodes, cgStep, beta, bOp, aStarA, aStar]
+    simp [evalPlan, evalNodes, evalNode, cg_body_plan, cgBodyPlan, cgHeadNodes, betaNodes, cgStep, beta, bOp, aStarA, aStar]
 
 /-! ### phase 2: every re-implementation of the physics inside the unrolled models and engines evaluates to one of
 the model's forms (`softDC`, `sense`, `feOp`, `aOp`, `aStar`, `dcGradTwice`, `dcGradAfter`, `loglik`, `cirimKspace`,
